@@ -382,9 +382,44 @@ func cycleTestDominates(fn *ssa.Function, push *ssa.Store) bool {
 	return false
 }
 
+// derivesFromString: v is s itself, []rune(s), or utf16.Encode of such (a re-encoding of the same text).
+func derivesFromString(v, s ssa.Value, d int) bool {
+	if v == s {
+		return true
+	}
+	if d > 3 {
+		return false
+	}
+	switch y := v.(type) {
+	case *ssa.Convert:
+		return derivesFromString(y.X, s, d+1)
+	case *ssa.Call:
+		if cl := y.Call.StaticCallee(); cl != nil && cl.Pkg != nil && cl.Pkg.Pkg.Path() == "unicode/utf16" && cl.Name() == "Encode" {
+			return derivesFromString(y.Call.Args[0], s, d+1)
+		}
+	}
+	return false
+}
+
 func gapBounded(fn *ssa.Function, st *ssa.Store) (bool, string) {
 	switch v := st.Val.(type) {
+	case *ssa.Convert:
+		// string(utf16.Decode(units[0:k])) / string(runes[0:k]) with k <= 10
+		inner := v.X
+		if call, ok := inner.(*ssa.Call); ok {
+			if cl := call.Call.StaticCallee(); cl != nil && cl.Pkg != nil && cl.Pkg.Pkg.Path() == "unicode/utf16" && cl.Name() == "Decode" {
+				inner = call.Call.Args[0]
+			}
+		}
+		if sl, ok := inner.(*ssa.Slice); ok {
+			if k, isC := constInt(sl.High); isC && k <= 10 {
+				return true, "built from at most 10 code units / characters"
+			}
+		}
 	case *ssa.Slice:
+		if bt, ok := v.X.Type().Underlying().(*types.Basic); ok && bt.Info()&types.IsString != 0 {
+			return false, "the Go string is sliced at a byte offset: the limit of 15.12.3 step 7 is 10 characters (code units), so a non-ASCII space string is cut short or inside a character (`JSON.stringify([1], null, 'ääääääääääää')` indents with 5 characters)"
+		}
 		if k, isC := constInt(v.High); isC && k <= 10 {
 			return true, "sliced to at most 10 characters"
 		}
@@ -428,7 +463,7 @@ func gapBounded(fn *ssa.Function, st *ssa.Store) (bool, string) {
 			continue
 		}
 		if call, ok := bo.X.(*ssa.Call); ok {
-			if bi, ok := call.Call.Value.(*ssa.Builtin); ok && bi.Name() == "len" && call.Call.Args[0] == st.Val {
+			if bi, ok := call.Call.Value.(*ssa.Builtin); ok && bi.Name() == "len" && derivesFromString(call.Call.Args[0], st.Val, 0) {
 				if b.Succs[1].Dominates(st.Block()) || b.Succs[1] == st.Block() {
 					return true, "whole string, stored only when len <= 10"
 				}
